@@ -30,7 +30,7 @@ var Calls = []string{"sel_name", "sel_field", "sel_list", "sel_raw", "sel_expr",
 	"order_expr", "limit_m1", "limit_0", "limit_2", "limit_5", "offset_m1", "offset_0", "offset_3",
 	"group_name", "group_age", "having_cnt", "having_age", "lock_update", "lock_share"}
 
-var Fins = []string{"find", "take", "first", "last", "count"}
+var Fins = []string{"find", "take", "first", "last", "count", "delete"}
 
 func apply(tx *gorm.DB, c string) (*gorm.DB, error) {
 	switch c {
@@ -120,6 +120,8 @@ func runOne(db *gorm.DB, caseNo int, calls []string, fin string) (hx.M, error) {
 	case "count":
 		var n int64
 		tx = tx.Count(&n)
+	case "delete":
+		tx = tx.Delete(&CL{})
 	default:
 		return nil, fmt.Errorf("unknown finisher %q", fin)
 	}
